@@ -240,6 +240,22 @@ fn c04() {
     match Memvid::open(&crash) { Ok(m2) => println!("C04 open after a crash between the two header writes: frames = {}", m2.frame_count()), Err(e) => println!("C04 open after crash failed: {}", e) }
 }
 
+fn c20wal() {
+    // committed, closed file; flip one byte of the *sequence* field of the (already checkpointed) first WAL record
+    let dir = tempfile::tempdir().unwrap();
+    let p = dir.path().join("a.mv2");
+    { let mut m = Memvid::create(&p).unwrap(); m.put_bytes(b"the one committed document").unwrap(); m.commit().unwrap(); }
+    { let m = Memvid::open_read_only(&p).unwrap(); println!("C20wal committed frames = {}", m.frame_count()); }
+    let mut img = std::fs::read(&p).unwrap();
+    let wal_off = u64::from_le_bytes(img[16..24].try_into().unwrap()) as usize;
+    println!("C20wal wal_offset {} first record sequence {} header.wal_sequence {}", wal_off, u64::from_le_bytes(img[wal_off..wal_off+8].try_into().unwrap()), u64::from_le_bytes(img[40..48].try_into().unwrap()));
+    img[wal_off + 1] ^= 0x01;
+    std::fs::write(&p, &img).unwrap();
+    let v = Memvid::verify(&p, true);
+    println!("C20wal verify(deep) after the flip: {:?}", v.map(|r| r.overall_status).map_err(|e| e.to_string()));
+    match Memvid::open(&p) { Ok(m) => println!("C20wal open after the flip: frames = {}", m.frame_count()), Err(e) => println!("C20wal open after the flip failed: {}", e) }
+}
+
 fn c32() {
     let dir = tempfile::tempdir().unwrap();
     let p = dir.path().join("a.mv2");
@@ -457,5 +473,5 @@ fn c08() {
 
 fn main() {
     let which = std::env::args().nth(1).unwrap_or_default();
-    match which.as_str() { "c05"=>c05(), "c26"=>c26(), "c20"=>c20(), "c20blob"=>c20blob(), "c07"=>c07(), "c39"=>c39(), "c19"=>c19(), "c02growth"=>c02growth(), "c04"=>c04(), "c26replay"=>c26replay(), "c18replay"=>c18replay(), "c02replay"=>c02replay(), "c32"=>c32(), "c11"=>c11(), "c17"=>c17(), "c08"=>c08(), "c29"=>c29(), "c14"=>c14(), "c09"=>c09(), "c18"=>c18(), "c23"=>c23(), "c16"=>c16(), "c40"=>c40(), "c24"=>c24(), "c15"=>c15(), "c22"=>c22(), _=>{ c05(); c26(); c20(); c11(); c17(); } }
+    match which.as_str() { "c05"=>c05(), "c26"=>c26(), "c20"=>c20(), "c20blob"=>c20blob(), "c07"=>c07(), "c39"=>c39(), "c19"=>c19(), "c02growth"=>c02growth(), "c04"=>c04(), "c20wal"=>c20wal(), "c26replay"=>c26replay(), "c18replay"=>c18replay(), "c02replay"=>c02replay(), "c32"=>c32(), "c11"=>c11(), "c17"=>c17(), "c08"=>c08(), "c29"=>c29(), "c14"=>c14(), "c09"=>c09(), "c18"=>c18(), "c23"=>c23(), "c16"=>c16(), "c40"=>c40(), "c24"=>c24(), "c15"=>c15(), "c22"=>c22(), _=>{ c05(); c26(); c20(); c11(); c17(); } }
 }
